@@ -292,9 +292,18 @@ open Lean Elab Command in
                 self.sig_hist[key] = self.sig_hist.get(key, 0) + 1
                 if (sig or req.startswith('threads')) and not self.trivial(req, out):
                     self.nontrivial.add(req)
-            if out == "panic badinput" or mout == "bad-op":
+            if out == "panic badinput" or mout == "bad-op" or (req.startswith("threads") and "panic,badinput" in out):
                 # a request outside the protocol's domain (generator slip): counted, never a verdict
                 self.extra["bad_requests"] = self.extra.get("bad_requests", 0) + 1
+                continue
+            if req.startswith("threads"):
+                # one observation per schedule step; each step's spec may list alternatives (fields use `,` for ` `)
+                fo, fs, fm = out.split(" "), spec.split(" "), mout.split(" ")
+                ok = len(fo) == len(fs) and all(self.match(b.replace(",", " "), a.replace(",", " ")) for a, b in zip(fo, fs))
+                if not ok:
+                    self.violations.append(("impl∉spec", req, out, spec, tag))
+                elif out != mout:
+                    self.violations.append(("impl≠model", req, out, mout, tag))
                 continue
             if not self.match(spec, out):
                 kf = self.known(req, out)
